@@ -190,6 +190,9 @@ func shrink(c engine.Case) []engine.Case {
 				continue
 			}
 			add(d.Src[:ranges[i][0]] + d.Src[ranges[i][1]:])
+			if i+1 < len(ranges) && ranges[i+1][0] < ranges[i+1][1] {
+				add(d.Src[:ranges[i][0]] + d.Src[ranges[i+1][1]:]) // two adjacent tokens
+			}
 		}
 		prev := 0
 		for i := range ranges {
